@@ -308,7 +308,7 @@ def gen_case(rng):
             text = f"{rng.randint(1, 4294967295)} {text}"
         native = not (platform == "ios" and "/" in text)
         if platform == "ios" and rng.random() < 0.1:
-            text, native = "group-object " + rng.choice(["G1", "n.2"]), True
+            text, native = "group-object " + rng.choice(["G1", "n.2", "prod-dmz", "branch-office", "top", "t", "object", "group-object-2"]), True
         return {"cls": "AddressAg", "text": text, "native": native, "kwargs": {"platform": platform}}
     if roll < 0.48:
         members = []
